@@ -29,7 +29,7 @@ Definition holds_o (pc : opc) : bool :=
   end.
 Definition holds_t (pc : tpc) : bool :=
   match pc with
-  | TReadBase _ | TWriteBase _ _ | TReadTop _ _ | TSlot _ _ | TRollback _ _ | TUnlock _
+  | TReadBase _ | TWriteBase _ _ | TReadTop _ _ | TSlot _ _ | TDecide _ _ | TRollback _ _ | TUnlock _
   | TPassCheck _ | TPassSlot _ _ | TPassBase _ | TPeekCheck | TUnlockP => true
   | _ => false
   end.
@@ -38,7 +38,7 @@ Definition holds_t (pc : tpc) : bool :=
 Definition oinfl (m : mem) (pc : opc) : list Z :=
   match pc with OPopFast t => [znth (ptr m) t] | _ => [] end.
 Definition tinfl1 (m : mem) (pc : tpc) : list Z :=
-  match pc with TSlot _ b => [znth (ptr m) b] | _ => [] end.
+  match pc with TSlot _ b | TDecide _ b => [znth (ptr m) b] | _ => [] end.
 
 (** what the participants' locals are known to be *)
 Definition oinv (m : mem) (sz : Z) (pc : opc) : Prop :=
@@ -56,7 +56,7 @@ Definition tinv (m : mem) (pc : tpc) : Prop :=
   match pc with
   | TWriteBase _ b => b = base m
   | TReadTop _ b | TRollback _ b => base m = b + 1
-  | TSlot _ b => base m = b + 1 /\ 0 <= b
+  | TSlot _ b | TDecide _ b => base m = b + 1 /\ 0 <= b
   | TPassSlot _ b => b = base m /\ 0 < b
   | TPassBase x => 0 < base m /\ znth (ptr m) (base m - 1) = x
   | _ => True
@@ -175,8 +175,8 @@ Proof.
     core_goal; fin.
     + rewrite zupd_length; auto.
     + intro y. rewrite (C4 y). rewrite zseg_zupd_outside by lia.
-      destruct h; cbn [tinfl1 tinv hc b2z] in *; mem_cbn; try reflexivity.
-      rewrite znth_zupd_other; [reflexivity|lia|lia].
+      destruct h; cbn [tinfl1 tinv hc b2z] in *; mem_cbn; try reflexivity;
+        (rewrite znth_zupd_other; [reflexivity|lia|lia]).
     + repeat split; auto. rewrite znth_zupd_same; auto; lia.
     + destruct h; cbn [tinv hc b2z] in *; mem_cbn; auto.
       destruct C8 as [C8a C8b]. split; auto. rewrite znth_zupd_other; auto; lia.
@@ -299,15 +299,18 @@ Proof.
       occ_norm. lia.
   - (* TSlot *)
     destruct (thief_holds_excl _ _ _ _ _ _ C eq_refl) as [Ho Hl].
-    destruct m0 as [|[|]|]; inversion E; subst; clear E; core_open_t C; destruct C8 as [C8 C8']; core_goal_t; fin_o Ho C7.
+    destruct m0 as [|d|]; inversion E; subst; clear E; core_open_t C; destruct C8 as [C8 C8']; core_goal_t; fin_o Ho C7.
     + intro y. rewrite occ_app, (C4 y). occ_norm. lia.
+    + assert (b2z (oc o) = 0 \/ b2z (oc o) = 1) by (destruct (oc o); cbn; lia).
+      intro y. rewrite (C4 y). ofr m o. rewrite (zseg_cons (ptr m) (base m - 1)) by lia.
+      replace (base m - 1 + 1) with (base m - 0) by lia. replace (base m - 1) with b by lia.
+      occ_norm. lia.
+  - (* TDecide *)
+    destruct (thief_holds_excl _ _ _ _ _ _ C eq_refl) as [Ho Hl].
+    destruct d; inversion E; subst; clear E; core_open_t C; destruct C8 as [C8 C8']; core_goal_t; fin_o Ho C7.
     + intro y. rewrite occ_app, (C4 y). ofr m o. occ_norm. lia.
     + assert (b2z (oc o) = 0 \/ b2z (oc o) = 1) by (destruct (oc o); cbn; lia).
       intro y. rewrite (C4 y). rewrite (zseg_cons (ptr m) (base m - 1)) by lia.
-      replace (base m - 1 + 1) with (base m - 0) by lia. replace (base m - 1) with b by lia.
-      occ_norm. lia.
-    + assert (b2z (oc o) = 0 \/ b2z (oc o) = 1) by (destruct (oc o); cbn; lia).
-      intro y. rewrite (C4 y). ofr m o. rewrite (zseg_cons (ptr m) (base m - 1)) by lia.
       replace (base m - 1 + 1) with (base m - 0) by lia. replace (base m - 1) with b by lia.
       occ_norm. lia.
   - (* TRollback *)
